@@ -326,6 +326,12 @@ func (c *converter) trackIngress(ingList []*networking.Ingress) {
 		if port > 0 {
 			ctx = convtypes.ResourceHATCPService
 		}
+		if ing.Spec.DefaultBackend != nil && port == 0 {
+			// the default backend is added to the default host if its root path is still free
+			if host := c.haproxy.Hosts().FindHost(hatypes.DefaultHost); host != nil && host.FindPath("/", hatypes.MatchBegin) == nil {
+				c.tracker.TrackNames(convtypes.ResourceIngress, name, ctx, hatypes.DefaultHost)
+			}
+		}
 		for _, rule := range ing.Spec.Rules {
 			c.tracker.TrackNames(convtypes.ResourceIngress, name, ctx, normalizeHostname(rule.Host, port))
 			if rule.HTTP != nil {
